@@ -126,6 +126,27 @@ theorem readN_blocking (fuel : Nat) (s : Sock) (num : Nat) (acc : Bytes) (g : Go
         · intro henough; rw [hpend] at henough; simp at henough; omega
         · intro _; exact ⟨s', rfl⟩
 
+/-- **C16 (length bounds).** `get_checked_rad_length` is positive exactly for length fields 20..4096, and then
+    equals the field; every other 16-bit value yields a non-positive result -/
+theorem checkedRadLength_pos_iff (hdr : Bytes) :
+    (0 < checkedRadLength hdr ↔ 20 ≤ radLen hdr ∧ radLen hdr ≤ 4096) ∧
+    (0 < checkedRadLength hdr → checkedRadLength hdr = (radLen hdr : Int)) := by
+  unfold checkedRadLength
+  constructor
+  · constructor
+    · intro h
+      split at h
+      · omega
+      · omega
+    · intro h
+      have : ¬ (radLen hdr < 20 ∨ radLen hdr > 4096) := by omega
+      simp only [this, if_false]
+      omega
+  · intro h
+    split at h
+    · omega
+    · rename_i hn; simp [hn]
+
 /-- one step of the specification: the first frame of a stream (or why there is none) and what follows it -/
 def frameStep (p : Bytes) : Out × Bytes :=
   if p.length < 4 then (.closed (-1), [])
